@@ -715,6 +715,13 @@ def child_family(tier="quick"):
     A42 = [["SUCCEEDED", {"cb": 42}]]
     addtok("token-success", [ok], allowed=A42)
     addtok("token-failure", [fail], allowed=[["FAILED", "E.cb"]])
+    # SendTaskFailure whose optional members are left out: the task still fails (never a 5xx, never a success)
+    addtok("token-failure-bare", [dict(fail, params={})], allowed=[["FAILED", "States.TaskFailed"]])
+    addtok("token-failure-error-only", [dict(fail, params={"error": "E.cb"})], allowed=[["FAILED", "E.cb"]])
+    addtok("token-failure-cause-only", [dict(fail, params={"cause": "only a cause"})], allowed=[["FAILED", "States.TaskFailed"]])
+    # ... or are of the wrong JSON type: refused, and the valid callback that follows completes the task
+    addtok("token-failure-wrong-types-then-valid", [dict(fail, params={"error": 5, "cause": "c"}, tag="malformed"), dict(fail, params={"error": "E.cb", "cause": ["c"]}, tag="malformed"),
+                                                   dict(ok, params={"output": 5}, tag="malformed"), ok], allowed=A42)
     addtok("token-duplicate", [ok, dict(ok, params={"output": "{\"cb\": 43}"}, tag="duplicate")], allowed=A42)
     addtok("token-success-then-failure", [ok, dict(fail, tag="duplicate")], allowed=A42)
     addtok("token-forged-then-valid", [dict(ok, mangle="forge", tag="forged"), ok], allowed=A42)
